@@ -741,7 +741,7 @@ impl TxPoolService {
     pub(crate) async fn _test_accept_tx(&self, tx: TransactionView) -> Result<Completed, Reject> {
         let (pre_check_ret, snapshot) = self.pre_check(&tx).await;
 
-        let (_tip_hash, rtx, status, _fee, _tx_size) = pre_check_ret?;
+        let (_tip_hash, rtx, status, fee, tx_size) = pre_check_ret?;
 
         // skip check the delay window
 
@@ -750,7 +750,7 @@ impl TxPoolService {
         let tip_header = snapshot.tip_header();
         let tx_env = Arc::new(status.with_env(tip_header));
 
-        verify_rtx(
+        let verified = verify_rtx(
             Arc::clone(&snapshot),
             Arc::clone(&rtx),
             tx_env,
@@ -758,7 +758,26 @@ impl TxPoolService {
             max_cycles,
             None,
         )
-        .await
+        .await?;
+
+        // `pre_check` lets a transaction that conflicts with pooled ones pass; what becomes of it
+        // is decided in `submit_entry`, take the same decision here
+        let entry = TxEntry::new(rtx, verified.cycles, fee, tx_size);
+        let (ret, _snapshot) = self
+            .with_tx_pool_read_lock(|tx_pool, snapshot| {
+                if tx_pool.enable_rbf() {
+                    tx_pool.check_rbf(&snapshot, &entry).map(|_| ())
+                } else if let Some(outpoint) =
+                    tx_pool.pool_map.find_conflict_outpoint(entry.transaction())
+                {
+                    Err(Reject::Resolve(OutPointError::Dead(outpoint)))
+                } else {
+                    Ok(())
+                }
+            })
+            .await;
+        ret?;
+        Ok(verified)
     }
 
     pub(crate) async fn update_tx_pool_for_reorg(
